@@ -1094,9 +1094,36 @@ def elem_ref(pdb, ctx, n):
     return None
 
 
-def range_of(ctx, fornode):
+def early_exits(lp):
+    """break / continue / return statements inside the body of loop lp (closures excluded; panics are not exits)."""
+    out = []
+    stack = [lp["body"]]
+    while stack:
+        x = stack.pop()
+        k = x.get("k")
+        if k == "Closure":
+            continue
+        if k in ("Break", "Continue", "Ret") and not x.get("x"):
+            out.append(x)
+        if k == "Try":
+            out.append(x)
+        stack.extend(children(x))
+    return out
+
+
+def for_range_total(ctx, fornode):
+    """for_range, but None when the loop body can leave an iteration early: then `for v in lo..hi` does not mean
+    that the body's effect happens for every v in the range, and full-range claims must not be made."""
     r = for_range(ctx, fornode)
+    if r is None:
+        return None
+    if early_exits(fornode):
+        return None
     return r
+
+
+def range_of(ctx, fornode):
+    return for_range_total(ctx, fornode)
 
 
 def loop_var_ranges(ctx, loops):
@@ -1105,7 +1132,7 @@ def loop_var_ranges(ctx, loops):
     for lp in loops:
         if lp.get("k") != "For":
             continue
-        r = for_range(ctx, lp)
+        r = for_range_total(ctx, lp)
         if r is None:
             continue
         v, lo, hi, incl, rev = r
@@ -1411,7 +1438,7 @@ def is_zero_term(t):
 
 class ArgMax:
     __slots__ = ("loop", "ifnode", "cmp", "best", "cur", "idx_var", "idx_val", "orient_ok", "best_gets_cur", "magnitude_ok",
-                 "detail", "var", "lo", "hi")
+                 "detail", "var", "lo", "hi", "fresh")
 
 
 def find_argmax(pdb, ctx, loop):
@@ -1459,10 +1486,28 @@ def find_argmax(pdb, ctx, loop):
         cur_def = _resolve(ctx, am.cur)
         inits = _reaching_values(ctx, am.best, exclude=best.node, at=c)
         am.magnitude_ok = is_abs_term(cur_def) and all(is_abs_term(_resolve(ctx, t)) or is_zero_term(_resolve(ctx, t)) for t in inits) and bool(inits)
+        # the accumulators are (re)initialised for every search: their `let` / initialising assignment lives in the
+        # same loop nest as the search loop (a declaration hoisted out of an enclosing loop would carry a stale maximum over)
+        search_nest = [id(L) for L in enclosing_loops(loop)]
+
+        def fresh(v):
+            if v is None or v[0] != "var":
+                return True
+            b_ = ctx.binds.get(v[1])
+            if b_ is None or b_.node is None:
+                return False
+            if [id(L) for L in enclosing_loops(b_.node)] == search_nest and _npos(b_.node) < _npos(loop):
+                return True
+            for a_ in ctx.assigns.get(v[1], []):
+                if [id(L) for L in enclosing_loops(a_)] == search_nest and _npos(a_) < _npos(loop) and a_.get("k") == "Assign":
+                    return True
+            return False
+        am.fresh = fresh(am.best) and fresh(am.idx_var)
+        am.magnitude_ok = am.magnitude_ok and am.fresh
         am.detail = "compare %s %s %s; best=%s gets %s; index=%s gets %s; candidates |.|: %s; initial value(s) of best: %s" % (
             show(L, ctx), op, show(R, ctx), show(am.best, ctx), show(bv, ctx),
             show(am.idx_var, ctx) if am.idx_var else None, show(am.idx_val, ctx) if am.idx_val else None,
-            is_abs_term(cur_def), [show(_resolve(ctx, t), ctx) for t in inits])
+            is_abs_term(cur_def), [show(_resolve(ctx, t), ctx) for t in inits]) + "; accumulators re-initialised for every search: %s" % am.fresh
         return am
     return None
 
